@@ -16,6 +16,7 @@ package verifh
 //     errors as Parse (sampled subset, one Env per child process).
 
 import (
+	"sync/atomic"
 	"context"
 	"crypto/sha256"
 	"encoding/base64"
@@ -79,7 +80,7 @@ type stepCounter struct {
 }
 
 func (sc *stepCounter) hook(name string) {
-	sc.total++
+	atomic.AddInt64(&sc.total, 1)
 	switch name {
 	case "lex.next":
 		sc.lex++
@@ -108,12 +109,22 @@ func (sc *stepCounter) phase() string {
 
 func c12Budget(n int) int64 { return int64(c12K) * int64(n+64) }
 
-// c12Parse runs the real parser under the step budget (0 = unlimited).
+// c12Parse runs the real parser under the step budget (0 = unlimited). The
+// parse runs in its own goroutine so that a parse that BLOCKS (no hook step is
+// taken any more, so the step budget cannot fire) is noticed: when the call has
+// not returned after a generous wall-clock wait, the step counter is observed
+// twice; if it does not move and the parsing goroutine is parked inside the
+// schema package, the verdict is "no return" with the parked frame (a
+// state-based witness; a parse that is merely slow keeps counting steps and is
+// stopped by the budget instead). The parked goroutine cannot be killed and is
+// left behind.
 func c12Parse(input string, budget int64) (ns []namespace.Namespace, errs []*schema.ParseError, sc *stepCounter, aborted bool, panicText string) {
 	sc = &stepCounter{budget: budget}
 	verifhook.Set(sc.hook)
 	defer verifhook.Set(nil)
-	func() {
+	done := make(chan struct{})
+	go func() {
+		defer close(done)
 		defer func() {
 			if rec := recover(); rec != nil {
 				if _, ok := rec.(c12Abort); ok {
@@ -127,7 +138,58 @@ func c12Parse(input string, budget int64) (ns []namespace.Namespace, errs []*sch
 		}()
 		ns, errs = schema.Parse(input)
 	}()
-	return
+	timer := time.NewTimer(10 * time.Second)
+	defer timer.Stop()
+	for {
+		select {
+		case <-done:
+			return
+		case <-timer.C:
+			s0 := atomic.LoadInt64(&sc.total)
+			time.Sleep(500 * time.Millisecond)
+			select {
+			case <-done:
+				return
+			default:
+			}
+			if s1 := atomic.LoadInt64(&sc.total); s1 == s0 {
+				if frame := parkedInSchema(); frame != "" {
+					return nil, nil, sc, false, "NO-RETURN parked@" + frame + "\nschema.Parse did not return; no parser step was taken between two observations and its goroutine is parked at " + frame
+				}
+			}
+			timer.Reset(10 * time.Second)
+		}
+	}
+}
+
+// parkedInSchema returns the innermost schema frame of a goroutine that is
+// blocked (chan send / chan receive / select) inside keto's schema package.
+func parkedInSchema() string {
+	buf := make([]byte, 2<<20)
+	n := runtime.Stack(buf, true)
+	for _, g := range strings.Split(string(buf[:n]), "\n\n") {
+		if !strings.Contains(g, "github.com/ory/keto/internal/schema.") {
+			continue
+		}
+		first := g
+		if i := strings.IndexByte(g, '\n'); i > 0 {
+			first = g[:i]
+		}
+		if !(strings.Contains(first, "chan send") || strings.Contains(first, "chan receive") || strings.Contains(first, "select")) {
+			continue
+		}
+		for _, l := range strings.Split(g, "\n") {
+			l = strings.TrimSpace(l)
+			if strings.HasPrefix(l, "github.com/ory/keto/internal/schema.") {
+				f := strings.TrimPrefix(l, "github.com/ory/keto/internal/")
+				if i := strings.LastIndex(f, "("); i > 0 {
+					f = f[:i]
+				}
+				return f
+			}
+		}
+	}
+	return ""
 }
 
 // hasClassKeyword: independent scan for a `class` keyword outside comments and
@@ -280,7 +342,9 @@ func (m *c12Monitor) check(idx int64, sub string, c *c12Case, s string, endpoint
 		h := sha256.Sum256([]byte(s))
 		run.nontrivial(string(h[:]))
 	}
-	if pt != "" {
+	if strings.HasPrefix(pt, "NO-RETURN ") {
+		viol("C12:no-return:"+strings.TrimPrefix(firstLine(pt), "NO-RETURN "), "schema.Parse did not return (blocked): "+firstLine(pt), map[string]any{"detail": pt})
+	} else if pt != "" {
 		viol("C12:panic:parse:"+topFrames(pt, 3), "schema.Parse panicked: "+firstLine(pt), map[string]any{"stack": pt})
 		return verdict
 	}
